@@ -4,7 +4,11 @@
  "functions": ["qb_log_filter_ctl2", "_log_filter_store", "_log_filter_exists", "_log_filter_apply", "_log_filter_apply_to_cs", "_cs_matches_filter_"],
  "stubs": ["calloc / strdup (fresh or NULL)", "regcomp (may fail)", "regexec / strstr (any result, fixed for the call)", "pthread_rwlock_* (sequential no-ops)"],
  "expect_classes": ["assertion"], "timeout": 300,
- "variants": [{"vname": "validation", "defines": ["-DV_VALID"]}, {"vname": "add", "defines": ["-DV_ADD"]}, {"vname": "clear", "defines": ["-DV_CLEAR"]}]}
+ "drops": ["pointer-overflow check switched off inside log.c (-DVERIF_LIST_IDIOM): qb_list_for_each_entry computes container_of(list head), a pointer outside the head object that is never dereferenced; pointer dereference and bounds checks stay on"],
+ "variants": [{"vname": "refuse_anyslot", "defines": ["-DV_VALID", "-DV_MODE=0", "-DVERIF_SLOT=4", "-DVERIF_LIST_IDIOM"]},
+              {"vname": "refuse_args", "defines": ["-DV_VALID", "-DV_MODE=2", "-DVERIF_SLOT=4", "-DVERIF_LIST_IDIOM"]},
+              {"vname": "add4", "defines": ["-DV_ADD", "-DVERIF_SLOT=4", "-DVERIF_LIST_IDIOM"]}, {"vname": "add31", "defines": ["-DV_ADD", "-DVERIF_SLOT=31", "-DVERIF_LIST_IDIOM"]},
+              {"vname": "clear4", "defines": ["-DV_CLEAR", "-DVERIF_SLOT=4", "-DVERIF_LIST_IDIOM"]}, {"vname": "clear31", "defines": ["-DV_CLEAR", "-DVERIF_SLOT=31", "-DVERIF_LIST_IDIOM"]}]}
 */
 /* qb_log_filter_ctl2(t, c, type, text, high, low)
  *  validation  the argument table for ALL argument values: logging not initialised -> -EINVAL; a target operation on a slot
@@ -46,6 +50,7 @@ void harness(void)
 	ASSUME(nd_state >= QB_LOG_STATE_UNUSED && nd_state <= QB_LOG_STATE_ENABLED);
 	ASSUME(nd_text_kind <= 2 && nd_nstored <= 2 && nd_wsite <= 1 && nd_inited <= 1 && nd_strstr <= 1);
 	ASSUME(!(nd_text_kind == 2 && nd_c0 == '*' && nd_c1 == 0));
+	ASSUME(nd_c <= 255 && nd_type <= 255);     /* enum arguments: CBMC compares enums as signed int, GCC as unsigned; values >= 2^31 are left out */
 	text[0] = nd_text_kind == 1 ? '*' : (char)nd_c0; text[1] = nd_text_kind == 1 ? 0 : (char)nd_c1; text[2] = 0;
 	/* (only the addressed slot matters to the code under test; it is set up below, the others stay zero-initialised) */
 	logger_inited = nd_inited;
@@ -67,53 +72,45 @@ void harness(void)
 	struct qb_log_callsite cs0 = verif_sites[nd_wsite];
 
 #ifdef V_VALID
-	/* mode 0: EVERY slot number (any int32), no text            -> the range / unused / initialised checks for all t
-	 * mode 1: slot numbers -1 and 32, text given                 -> out-of-range is EBADF whatever the other arguments are
-	 * mode 2: slots 4 and 31, text given, every other argument   -> the remaining rows of the table
+	/* V_MODE 0 (refuse_anyslot): EVERY slot number (any int32), no text -> the initialised / range / unused checks for all t
+	 * V_MODE 2 (refuse_args):  slot 4, text given, every other argument   -> the remaining rows of the table
 	 * (a symbolic slot number on a path that reaches the filter store costs minutes of symex; see log_common.h) */
-	VERIF_ND(uint8_t, nd_mode);
-	VERIF_ND(uint8_t, nd_alt);
-	ASSUME(nd_mode <= 2 && nd_alt <= 1);
-	int32_t t = nd_mode == 0 ? nd_t : nd_mode == 1 ? (nd_alt ? -1 : QB_LOG_TARGET_MAX) : (nd_alt ? 4 : 31);
+	const int nd_mode = V_MODE;
+	int32_t t = nd_mode == 0 ? nd_t : VERIF_SLOT;
 	int t_ok = t >= 0 && t < QB_LOG_TARGET_MAX;
 	ASSUME(nd_mode != 0 || nd_text_kind == 0);
 	ASSUME(nd_mode == 0 || nd_text_kind != 0);
+	/* slots 4 and 7 carry the arbitrary state; the other entries of conf[] stay zero-initialised (not UNUSED) */
 	conf[4].pos = 4; conf[4].state = (enum qb_log_target_state)nd_state; qb_list_init(&conf[4].filter_head);
-	conf[31].pos = 31; conf[31].state = (enum qb_log_target_state)nd_state; qb_list_init(&conf[31].filter_head);
-	ASSUME(nd_mode != 0 || !t_ok || t == 4 || t == 31 || nd_state == QB_LOG_STATE_UNUSED || 1);
-	int t_unused = t_ok && ((t == 4 || t == 31) ? nd_state == QB_LOG_STATE_UNUSED : 0);
-	if (nd_mode == 0 && t_ok && t != 4 && t != 31) {
-		/* the other slots: zero-initialised conf[] entries are not UNUSED (UNUSED == 1); give slot 7 a real state */
-		conf[7].state = (enum qb_log_target_state)nd_state;
-		t_unused = (t == 7) && nd_state == QB_LOG_STATE_UNUSED;
-	}
+	conf[7].pos = 7; conf[7].state = (enum qb_log_target_state)nd_state; qb_list_init(&conf[7].filter_head);
+	int t_unused = (t == 4 || t == 7) && nd_state == QB_LOG_STATE_UNUSED;
 	int target_op = nd_c == QB_LOG_FILTER_ADD || nd_c == QB_LOG_FILTER_REMOVE || nd_c == QB_LOG_FILTER_CLEAR_ALL;
 	int bad_args = nd_text_kind == 0 || nd_low < nd_high || nd_type > QB_LOG_FILTER_FORMAT_REGEX || nd_c > QB_LOG_TAG_CLEAR_ALL;
 	int refused = !nd_inited || (target_op && (!t_ok || t_unused)) || bad_args;
 	ASSUME(refused);           /* accepted calls: variants add / clear */
 	int32_t rc;
-	const char *txt = nd_text_kind ? text : NULL;
 
-	if (nd_mode == 0) {
-		rc = qb_log_filter_ctl2(nd_t, (enum qb_log_filter_conf)nd_c, (enum qb_log_filter_type)nd_type, NULL, nd_high, nd_low);
-	} else if (nd_mode == 1 && nd_alt) {
-		rc = qb_log_filter_ctl2(-1, (enum qb_log_filter_conf)nd_c, (enum qb_log_filter_type)nd_type, txt, nd_high, nd_low);
-	} else if (nd_mode == 1) {
-		rc = qb_log_filter_ctl2(QB_LOG_TARGET_MAX, (enum qb_log_filter_conf)nd_c, (enum qb_log_filter_type)nd_type, txt, nd_high, nd_low);
-	} else if (nd_alt) {
-		rc = qb_log_filter_ctl2(4, (enum qb_log_filter_conf)nd_c, (enum qb_log_filter_type)nd_type, txt, nd_high, nd_low);
-	} else {
-		rc = qb_log_filter_ctl2(31, (enum qb_log_filter_conf)nd_c, (enum qb_log_filter_type)nd_type, txt, nd_high, nd_low);
-	}
+#if V_MODE == 0
+	rc = qb_log_filter_ctl2(nd_t, (enum qb_log_filter_conf)nd_c, (enum qb_log_filter_type)nd_type, NULL, nd_high, nd_low);
+#else
+	rc = qb_log_filter_ctl2(VERIF_SLOT, (enum qb_log_filter_conf)nd_c, (enum qb_log_filter_type)nd_type, text, nd_high, nd_low);
+#endif
 
-	COVER(!nd_inited); COVER(nd_inited && target_op && nd_mode == 0 && nd_t > QB_LOG_TARGET_MAX); COVER(nd_inited && target_op && nd_mode == 0 && nd_t < -1);
-	COVER(nd_inited && target_op && nd_mode == 1);
-	COVER(nd_inited && target_op && t_ok && t_unused && nd_mode == 2);
-	COVER(nd_inited && target_op && nd_mode == 0 && t == 7 && t_unused);
-	COVER(nd_inited && !target_op && nd_text_kind == 0); COVER(nd_inited && nd_low < nd_high && nd_text_kind && t_ok && !t_unused);
-	COVER(nd_inited && nd_type == QB_LOG_FILTER_FORMAT_REGEX + 1 && nd_text_kind && nd_low >= nd_high && !target_op);
-	COVER(nd_inited && nd_c == QB_LOG_TAG_CLEAR_ALL + 1 && nd_text_kind);
-	COVER(nd_inited && nd_c == QB_LOG_FILTER_CLEAR_ALL && t_ok && !t_unused && nd_text_kind == 0);
+#if V_MODE == 0
+	COVER(!nd_inited); COVER(nd_inited && target_op && nd_t > QB_LOG_TARGET_MAX); COVER(nd_inited && target_op && nd_t < -1);
+	COVER(nd_inited && target_op && t == 7 && t_unused);
+	COVER(nd_inited && target_op && t == 8);
+	COVER(nd_inited && !target_op);
+	COVER(nd_inited && nd_c == QB_LOG_FILTER_CLEAR_ALL && t_ok && !t_unused);
+#elif V_MODE == 1
+	COVER(nd_inited && target_op && !bad_args); COVER(nd_inited && !target_op && bad_args);
+#else
+	COVER(nd_inited && target_op && t_unused && !bad_args);
+	COVER(nd_inited && nd_low < nd_high && !t_unused);
+	COVER(nd_inited && nd_type == QB_LOG_FILTER_FORMAT_REGEX + 1 && nd_low >= nd_high && !target_op);
+	COVER(nd_inited && nd_c == QB_LOG_TAG_CLEAR_ALL + 1);
+	COVER(!nd_inited);
+#endif
 	if (!nd_inited) {
 		POST(rc == -EINVAL, "filter control before initialisation is refused with EINVAL");
 	} else if (target_op && (!t_ok || t_unused)) {
@@ -122,13 +119,11 @@ void harness(void)
 		POST(rc == -EINVAL, "missing text, inverted priority window, unknown type or unknown operation are refused with EINVAL");
 	}
 	POST(verif_sites[nd_wsite].targets == cs0.targets && verif_sites[nd_wsite].tags == cs0.tags, "a refused filter call changes no call site");
-	POST(qb_list_empty(&tags_head) && qb_list_empty(&conf[4].filter_head) && qb_list_empty(&conf[31].filter_head) && verif_alloc_calls == 0, "a refused filter call stores nothing");
+	POST(qb_list_empty(&tags_head) && qb_list_empty(&conf[4].filter_head) && qb_list_empty(&conf[7].filter_head) && verif_alloc_calls == 0, "a refused filter call stores nothing");
 	POST(verif_rwlock_depth == 0, "list lock released on every exit");
 #else
-	/* accepted calls on slot 4 or 31 */
-	VERIF_ND(uint8_t, nd_alt);
-	ASSUME(nd_alt <= 1);
-	nd_t = nd_alt ? 4 : 31;
+	/* accepted calls on slot VERIF_SLOT (4 or 31, a compile-time constant of the variant) */
+	nd_t = VERIF_SLOT;
 	ASSUME(nd_state != QB_LOG_STATE_UNUSED && nd_inited && nd_text_kind != 0 && nd_low >= nd_high);
 	ASSUME(nd_type >= QB_LOG_FILTER_FORMAT && nd_type <= QB_LOG_FILTER_FORMAT_REGEX);     /* file/function lists: units match.tokens */
 #ifdef V_ADD
@@ -140,9 +135,8 @@ void harness(void)
 	/* already stored: nd_nstored filters of another kind (so no duplicate) or, for f1, possibly the very same one */
 	VERIF_ND(uint8_t, nd_dup);
 	int32_t rc = 0;
-	conf[4].pos = 4; conf[4].state = (enum qb_log_target_state)nd_state; qb_list_init(&conf[4].filter_head);
-	conf[31].pos = 31; conf[31].state = (enum qb_log_target_state)nd_state; qb_list_init(&conf[31].filter_head);
-	head = is_tag ? &tags_head : (nd_alt ? &conf[4].filter_head : &conf[31].filter_head);
+	conf[VERIF_SLOT].pos = VERIF_SLOT; conf[VERIF_SLOT].state = (enum qb_log_target_state)nd_state; qb_list_init(&conf[VERIF_SLOT].filter_head);
+	head = is_tag ? &tags_head : &conf[VERIF_SLOT].filter_head;
 	if (nd_nstored >= 1) {
 		if (nd_dup) {
 			f1 = verif_new_filter((enum qb_log_filter_conf)nd_c, (enum qb_log_filter_type)nd_type, nd_text_kind == 1, (char)nd_c0, (char)nd_c1,
@@ -156,11 +150,7 @@ void harness(void)
 		f2 = verif_new_filter((enum qb_log_filter_conf)nd_c, QB_LOG_FILTER_FORMAT, 0, 'p', 'q', 0, 0, (uint32_t)nd_t + 200, -1);
 		qb_list_add_tail(&f2->list, head);
 	}
-	if (nd_alt) {
-		rc = qb_log_filter_ctl2(4, (enum qb_log_filter_conf)nd_c, (enum qb_log_filter_type)nd_type, text, nd_high, nd_low);
-	} else {
-		rc = qb_log_filter_ctl2(31, (enum qb_log_filter_conf)nd_c, (enum qb_log_filter_type)nd_type, text, nd_high, nd_low);
-	}
+	rc = qb_log_filter_ctl2(VERIF_SLOT, (enum qb_log_filter_conf)nd_c, (enum qb_log_filter_type)nd_type, text, nd_high, nd_low);
 	struct qb_log_callsite *w = &verif_sites[nd_wsite];
 	int skipped = (nd_wsite == 0 && nd_lineno0 == 0);          /* unused section entry */
 	int is_regex = nd_type >= QB_LOG_FILTER_FILE_REGEX;
@@ -180,7 +170,7 @@ void harness(void)
 		     "filters stored earlier keep their place and order");
 		POST(n->conf == (enum qb_log_filter_conf)nd_c && n->type == (enum qb_log_filter_type)nd_type && n->high_priority == nd_high &&
 		     n->low_priority == nd_low && n->new_value == (uint32_t)nd_t, "the stored filter carries exactly the given operation, type, priority window and target/tag value");
-		POST(n->text != text && n->text[0] == text[0] && n->text[1] == text[1] && (text[1] == 0 || n->text[2] == 0), "the stored filter owns a copy of the given text");
+		POST(n->text != text && n->text[0] == text[0] && (text[0] == 0 || (n->text[1] == text[1] && (text[1] == 0 || n->text[2] == 0))), "the stored filter owns a copy of the given text");
 		POST((n->regex != NULL) == is_regex, "a regex filter is stored with its compiled regex, others without");
 		if (skipped) {
 			POST(w->targets == cs0.targets && w->tags == cs0.tags, "unused call-site entries are not touched");
